@@ -3,7 +3,7 @@
 usage: tools/seed_regress.py [id-prefix ...]   prints one line per change; updates meta.json['regression']"""
 import glob, json, os, subprocess, sys
 V = os.path.dirname(os.path.dirname(os.path.abspath(__file__)))
-W = "/root/scratch/mut"
+W = os.environ.get("W", "/root/scratch/mut")
 def sh(cmd, **kw):
     return subprocess.run(cmd, shell=True, capture_output=True, text=True, **kw)
 head = sh("git -C /repo rev-parse HEAD").stdout.strip()
